@@ -66,7 +66,7 @@ CLAIMED.update({
     "C01": {
         "text": "Coq theorems (closed under the global context) over a model in which every unwrap/expect/index/assert/panic! site of the Rust is an explicit Panic result: for EVERY history of host calls from a fresh interpreter no call panics (C01_no_panic); the invariant that makes it so (all stored locations name existing lines, indexes agree, arrays have as many cells as their dimensions say) is preserved by every call (C01_inv); every failure is an error value after which the state is Idle, lines are accepted and the caret rendering succeeds (C01_errors_are_values). Native stack exhaustion is covered by the nesting cap (part of model and correspondence) plus process-isolated probes; wedge-freedom by per-call timeouts. Tied to the code by history correspondence (outcome, state, outputs, caret, message, snapshot) and a crash/abort/wedge oracle.",
         "design_ref": "DESIGN.md 6 C01",
-        "note": NOTE + "PARTIAL on the runtime side: that 64 nesting levels fit the native stack is probed (debug build, 8 MiB main-thread stack), not proved; OutOfFuel-freedom of the model (= every call returns) is validated by the correspondence, not proved.",
+        "note": NOTE + "PARTIAL on the runtime side: that 64 nesting levels fit the native stack is probed (debug build, 8 MiB main-thread stack), not proved; (that every call returns - OutOfFuel-freedom of the model above a fuel bound - is proved under C09: C09_continue_returns, C09_start_returns).",
         "technique": "Coq proof: inductive well-formedness invariant + panic-freedom over all evaluators and host-call histories; differential correspondence + crash/wedge oracle with isolated deep-nesting probes",
     },
 })
@@ -94,9 +94,9 @@ CLAIMED.update({
 
 CLAIMED.update({
     "C09": {
-        "text": "Coq theorems (closed under the global context), from ANY well-formed state (every reachable state is: C01): the call that continues a running program (C09_continue), the calls that start evaluation - an immediate statement line, RUN, CONT (C09_start) - and their common core (C09_turn) append at most ONE record that shows an executed statement (Print / Reenter / ExtraIgnored / Break; an IF together with the single statement it selects counts as one) and every Trace record of the call names the one line the cursor was on at entry; expression evaluation, user-function bodies included, appends only warnings (C09_expressions_silent). Proved by a relational walk over all evaluators. The per-call work bound and OutOfFuel-freedom are validated: the model's cursor-read counter must EQUAL the implementation's hook counter on every call and both are checked against 14*(tokens+1)+24; every implementation call runs under a time limit.",
+        "text": "Coq theorems (closed under the global context), from ANY well-formed state (every reachable state is: C01): the call that continues a running program (C09_continue), the calls that start evaluation - an immediate statement line, RUN, CONT (C09_start) - and their common core (C09_turn) append at most ONE record that shows an executed statement (Print / Reenter / ExtraIgnored / Break; an IF together with the single statement it selects counts as one) and every Trace record of the call names the one line the cursor was on at entry; expression evaluation, user-function bodies included, appends only warnings (C09_expressions_silent). Proved by a relational walk over all evaluators. And every call HANDS CONTROL BACK: the interpreter's loops and recursion are modelled with fuel, and from every well-formed state, with fuel above a bound that depends only on the longest token list the cursor can be on (stored lines, immediate line, submitted line) and the nesting cap, continue_evaluating and start_evaluating never answer OutOfFuel (C09_continue_returns, C09_start_returns; Proofs/Termination.v, Proofs/ImmFrame.v: the cursor never moves backwards and returns to its line after a user-function call, a successful expression consumes a token, every continuing loop iteration consumes a token, recursion costs one unit of fuel per level of the shared nesting counter). The per-call work bound is validated: the model's cursor-read counter must EQUAL the implementation's hook counter on every call and both are checked against 14*(tokens+1)+24; every implementation call runs under a time limit.",
         "design_ref": "DESIGN.md 6 C09",
-        "note": NOTE + "PARTIAL: C09_work (reads <= K*(line length+1)+K' without user functions) and C09_returns (no OutOfFuel) are validated by exact counter correspondence and the oracle, not proved.",
+        "note": NOTE + "PARTIAL: C09_work (reads <= K*(line length+1)+K' without user functions) is validated by exact counter correspondence and the oracle, not proved.",
         "technique": "Coq proof: output-record accounting by a three-level relational walk over all evaluators (expression / simple statement / statement with nested IF); exact read-counter correspondence + per-call oracle",
     },
     "C14": {
